@@ -13,3 +13,4 @@ import Photon.Properties.C04
 import Photon.Properties.C01
 import Photon.Properties.C02
 import Photon.Properties.C03
+import Photon.Properties.C06
